@@ -2022,4 +2022,127 @@ def impl(line):
         return impl_ctor(t)
     if t[0] == "call":
         return impl_call(t)
+    if t[0] == "sappend":
+        return impl_sappend(t)
+    if t[0] == "pcons":
+        return impl_pcons(t)
     return impl_mk(t)
+
+
+# ----------------------------------------------------------------------------------------------
+# operand-pair grids (second strengthening round)
+#   sappend <N> <st1> <a1> <b1> <st2> <a2> <b2> <data_only>   Sequence.append of two located sub-sequences of one parent
+#   pcons <op> <n> <k1> … <kn>                                   multi-operand operations over a pool of parent kinds
+# The expected verdicts are computed by the spec driver (lean/BioCantor/Spec/Validate.lean) from the plain numbers on
+# the line; this side only reports what the library did and what the result looks like.
+
+APPEND_GENOME = "ACGTTGCAAGTC"
+_COMP = {"A": "T", "C": "G", "G": "C", "T": "A"}
+
+
+def _extract(genome, blocks, strand):
+    """independent reading of a block list on a strand (plus: ascending; minus: reverse complement of that)"""
+    s = "".join(genome[a:b] for a, b in sorted(blocks))
+    return s if strand == "+" else "".join(_COMP[c] for c in reversed(s))
+
+
+def _sub_sequence(genome, st, a, b):
+    whole = Sequence(genome, Alphabet.NT_STRICT, id="par", type="chromosome")
+    data = genome[a:b] if st != "-" else _extract(genome, [(a, b)], "-")
+    return Sequence(data, Alphabet.NT_STRICT, type="piece",
+                    parent=Parent(id="par", sequence_type="chromosome", sequence=whole, location=SingleInterval(a, b, SYM[st])))
+
+
+def impl_sappend(t):
+    n, st1, a1, b1, st2, a2, b2, data_only = int(t[1]), t[2], int(t[3]), int(t[4]), t[5], int(t[6]), int(t[7]), t[8] == "1"
+    genome = APPEND_GENOME[:n]
+
+    def go():
+        s1, s2 = _sub_sequence(genome, st1, a1, b1), _sub_sequence(genome, st2, a2, b2)
+        r = s1.append(s2, data_only=data_only)
+        if not isinstance(r, Sequence):
+            return "ok illformed not-a-Sequence"
+        text_ok = str(r) == str(s1) + str(s2)
+        if data_only:
+            return f"ok D {len(r)} {1 if text_ok and r.parent is None else 0}"
+        loc = r.parent.location if r.parent is not None else None
+        if loc is None:
+            return f"ok N {len(r)} {1 if text_ok else 0}"
+        blocks = [(x.start, x.end) for x in loc.blocks]
+        rec_ok = text_ok and str(r) == _extract(genome, blocks, RSYM[loc.strand]) and len(r) == len(str(r))
+        return f"ok L {len(r)} {RSYM[loc.strand]} " + " ".join([str(len(blocks))] + [f"{x} {y}" for x, y in blocks]) + \
+            f" {1 if rec_ok else 0}"
+    return guarded(go)
+
+
+PARENT_KINDS = 10
+
+
+def parent_kind(k):
+    """the pool of parent kinds (descriptors in Spec.Validate.parentKinds): plain strings only, fresh objects"""
+    def seq(d):
+        return Sequence(d, Alphabet.NT_STRICT, id="p")
+    return [lambda: None,
+            lambda: Parent(id="p"),
+            lambda: Parent(id="p", sequence_type="chromosome"),
+            lambda: Parent(id="p", sequence_type="plasmid"),
+            lambda: Parent(id="p", sequence=seq("ACGTACGTAC")),
+            lambda: Parent(id="p", sequence=seq("TTTTTTTTTT")),
+            lambda: Parent(id="p", parent=Parent(id="gA")),
+            lambda: Parent(id="p", parent=Parent(id="gB")),
+            lambda: Parent(sequence_type="X"),
+            lambda: Parent(sequence_type="Y")][k]()
+
+
+def _kind_of(p):
+    """descriptor tuple of a Parent read attribute by attribute (no Parent.__eq__ / __hash__)"""
+    if p is None:
+        return None
+    return (p.id, None if p.sequence_type is None else str(getattr(p.sequence_type, "value", p.sequence_type)),
+            None if p.sequence is None else str(p.sequence), None if p.parent is None else p.parent.id)
+
+
+PCONS_OPS = {
+    "fsi": lambda xs: CompoundInterval.from_single_intervals(xs),
+    "union": lambda xs: xs[0].union(xs[1]),
+    "upo": lambda xs: xs[0].union_preserve_overlaps(xs[1]),
+    "isect": lambda xs: xs[0].intersection(xs[1], strict_parent_compare=True),
+    "dist": lambda xs: xs[0].distance_to(xs[1]),
+    "minus": lambda xs: xs[0].minus(xs[1], strict_parent_compare=True),
+    "contains": lambda xs: xs[0].contains(xs[1], strict_parent_compare=True),
+    "overlap": lambda xs: xs[0].has_overlap(xs[1], strict_parent_compare=True),
+    "locrel": lambda xs: SingleInterval(0, 6, Strand.PLUS, xs[0].parent).location_relative_to(
+        SingleInterval(4, 9, Strand.PLUS, xs[1].parent)),
+}
+_SPANS = [(0, 2), (4, 6), (8, 9)]
+
+
+def impl_pcons(t):
+    op, n = t[1], int(t[2])
+    kinds = [int(x) for x in t[3:3 + n]]
+
+    def go():
+        if op == "append":
+            a = Sequence("AC", Alphabet.NT_STRICT, parent=parent_kind(kinds[0]))
+            b = Sequence("GT", Alphabet.NT_STRICT, parent=parent_kind(kinds[1]))
+            r = a.append(b)
+            want = _kind_of(parent_kind(kinds[0]))
+            got = _kind_of(r.parent)
+        elif op == "mkpar":
+            r = Parent(id="c", sequence=Sequence("ACGT", Alphabet.NT_STRICT, id="c", parent=parent_kind(kinds[0])),
+                       parent=parent_kind(kinds[1]))
+            want = _kind_of(parent_kind(kinds[0] if kinds[0] else kinds[1]))
+            got = _kind_of(r.parent)
+        else:
+            xs = [SingleInterval(s, e, Strand.PLUS, parent_kind(k)) for (s, e), k in zip(_SPANS, kinds)]
+            r = PCONS_OPS[op](xs)
+            want = _kind_of(parent_kind(kinds[0]))
+            # (location_relative_to answers in the coordinates of the second operand: parent-less by design)
+            got = _kind_of(r.parent) if is_location(r) and not isinstance(r, W._EmptyLocation) and op != "locrel" else want
+        w = W.wf_value(r)
+        if w:
+            return "ok illformed " + w
+        if got != want and not (want is not None and got is not None and got[:3] == want[:3]):
+            return "ok illformed result-on-another-parent"
+        return "ok wf"
+    return guarded(go)
